@@ -139,7 +139,7 @@ def gen_cases(rng, n):
             cases.append({'kind': kind, 'alpha': alpha, 'letters': letters, 'lines': lines, 'circular': circ})
             if kind == 'ig':
                 # the title line is an arbitrary identifier -- also one spelled with the letters A, C, G, T only
-                cases[-1]['title'] = rng.choice(['title line', 'my_seq_A', 'GATA', 'TATA', 'CAT', 'A', 'TAG', 'seq 7'])
+                cases[-1]['title'] = rng.choice(['title line', 'my_seq_A', 'GATA', 'TATA', 'CAT', 'A', 'TAG', 'seq 7', 'chain1', 'seq2', 'A1', 'run 12'])
             if kind == 'fasta' and alpha == 'AA' and rng.random() < 0.35:
                 # the comment of a protein record that also names a nucleic acid ("... DNA-binding domain PROTEIN"):
                 # letters go through the DNA / RNA table first, then the amino-acid table
